@@ -149,6 +149,51 @@ class Gen:
         self.count("operand:literal")
         return self.lit(r.choice([0, 1, 0x7F, 0xFF, 0x100, 0x1234, 0xFFFF, 0x10000, 0x123456, r.randrange(1 << 24)]))
 
+    def val_text(self, v, ctx=None):
+        """an expression text whose value is the known non-negative integer v; its top-level operator may bind looser
+        than + (<<, >>, &) and it is never parenthesised as a whole"""
+        r = self.rng
+        c = r.random()
+        if c < 0.35:
+            return self.lit(v)
+        if c < 0.45:
+            a = r.randrange(1, 9)
+            return f"{self.lit(v + a)} - {self.lit(a)}"
+        if c < 0.55:
+            a = r.randrange(0, v + 1)
+            return f"{self.lit(a)} + {self.lit(v - a)}"
+        if c < 0.67:
+            return f"{self.lit(v | (r.randrange(0, 4) << 8))} & {self.lit(r.choice([0xFF, 0x7F, 0xF0 | v]))}" if v < 0x70 else self.lit(v)
+        if c < 0.79:
+            k = r.randrange(1, 4)
+            return f"{self.lit((v << k) | r.randrange(0, 1 << k))} >> {k}"
+        if c < 0.91:
+            k = 0
+            while v and v % 2 == 0 and k < 3 and r.random() < 0.8:
+                v //= 2
+                k += 1
+            return f"{self.lit(v)} << {k}"
+        if ctx is not None and ctx.consts:
+            n = r.choice(list(ctx.consts))
+            d = v - ctx.consts[n]
+            return f"{n} + {self.lit(d)}" if d >= 0 else f"{n} - {self.lit(-d)}"
+        return f"({self.lit(v)})"
+
+    def cond_text(self, ctx):
+        """an .if condition: literals, constants, undefined names, macro parameters and loop variables of any
+        enclosing scope (their value is known only when the body is expanded), small expressions over them"""
+        r = self.rng
+        base = ["1", "0", "-1", self.fresh("undefined_name")] + list(ctx.consts)[:3]
+        dyn = [p for p, k in ctx.params.items() if k == "int"]
+        c = r.random()
+        if dyn and c < 0.5:
+            n = r.choice(dyn)
+            return r.choice([n, n, f"{n} & 1", f"{n} - 1", f"{n} - 2", f"{n} >> 1", f"{n} + 1"])
+        if ctx.consts and c < 0.65:
+            n = r.choice(list(ctx.consts))
+            return r.choice([f"{n} - {n}", f"{n} & 1", f"{n} + 1", f"{n} >> 4"])
+        return r.choice(base)
+
     # ------------------------------------------------------------------ statements
     def instr(self, ctx):
         r = self.rng
@@ -256,6 +301,19 @@ class Gen:
         if depth < self.max_depth:
             if c < 0.76:
                 self.count("struct:block")
+                if r.random() < 0.25 and depth + 1 < self.max_depth:
+                    # a block whose definitions are all guarded by a condition
+                    self.count("struct:block-of-if")
+                    cc = ctx.child()
+                    tb = self.block(cc, depth + 2, small=True)
+                    if not any(x[0] == "label" for x in tb):
+                        name = self.fresh("L")
+                        cc.labels.add(name)
+                        tb = [("label", name)] + tb + [("data", "dw", [name])]
+                        self.section_bytes += 2
+                    eb = self.block(cc.child(), depth + 2, small=True) if r.random() < 0.4 else None
+                    pre = [] if r.random() < 0.6 else self.instr(cc)
+                    return [("block", pre + [("if", r.choice(["1", "1", "-1"] + [k for k, v in ctx.consts.items() if v][:2]), tb, eb)])]
                 return [("block", self.block(ctx.child(), depth + 1))]
             if c < 0.80 and not ctx.in_loop and not ctx.in_macro:
                 name = self.fresh("sc")
@@ -264,7 +322,7 @@ class Gen:
                 return [("scope", name, body)]
             if c < 0.85:
                 self.count("struct:if")
-                cond = r.choice(["1", "0", "-1", self.fresh("undefined_name")] + list(ctx.consts)[:3])
+                cond = self.cond_text(ctx)
                 tb = self.block(ctx.child(), depth + 1, small=True)
                 eb = self.block(ctx.child(), depth + 1, small=True) if r.random() < 0.5 else None
                 return [("if", cond, tb, eb)]
@@ -279,7 +337,9 @@ class Gen:
                 cc.params[v] = "int"
                 del cc.consts[v]
                 body = self.block(cc, depth + 1, small=True)
-                return [("for", v, self.lit(lo), self.lit(lo + cnt), body)]
+                if r.random() < 0.3:
+                    lo = r.choice([4, 8, 16, 0x20, 0x41])
+                return [("for", v, self.val_text(lo, ctx), self.val_text(lo + cnt, ctx), body, lo, lo + cnt)]
             if c < 0.95 and self.macros and not ctx.in_macro:
                 name = r.choice(list(self.macros))
                 kinds = self.macros[name]
